@@ -1,6 +1,5 @@
 \* the two proposed repairs switched on: the strict forms hold as well
 CONSTANTS
-  AllCells = FALSE
   FixedWindowRaw = TRUE
   FixedWatchdogRestart = TRUE
   ValMode = 1
